@@ -20,6 +20,16 @@ fn check(prop: &str, tier: Tier) {
     match prop {
         "C09" | "C10" | "C11" | "C12" => check_dom(prop, tier),
         "C18" => check_c18(tier),
+        "C15" => {
+            let run = Run::new("C15", tier, "model_checking");
+            let cov = vh::c15::check(&run);
+            run.finish(cov, &["legacy-named files for the read paths are produced with the public options that switch reflection off (empty ReflectionDatabase for rbx_binary, NoReflection for rbx_xml) and then read with the default database", "encounter order is varied by swapping PROP chunks / property elements of those files"]);
+        }
+        "C16" => {
+            let run = Run::new("C16", tier, "model_checking");
+            let cov = vh::c16::check(&run);
+            run.finish(cov, &["the database is the one linked into the harness (rbx_reflection_database::get()); a regenerated database is checked the same way, nothing is hard-coded", "value fidelity of non-default values is C06's subject; here defaults only"]);
+        }
         "C17" => {
             let run = Run::new("C17", tier, "model_checking");
             let cov = vh::c17::check(&run);
@@ -295,6 +305,14 @@ fn check_c18(tier: Tier) {
     );
 }
 
+fn simple_replay(prop: &str, vs: Vec<(String, String)>) -> ! {
+    for (k, w) in &vs {
+        println!("observed [{}]: {}", k, w);
+    }
+    println!("REPLAY property={} outcome={}", prop, if vs.is_empty() { "holds" } else { "violation" });
+    std::process::exit(if vs.is_empty() { 0 } else { 1 });
+}
+
 fn replay(prop: &str, file: &std::path::Path) {
     let text = std::fs::read_to_string(file)
         .unwrap_or_else(|e| evidence::machinery_failure(&format!("cannot read {}: {}", file.display(), e)));
@@ -332,6 +350,8 @@ fn replay(prop: &str, file: &std::path::Path) {
             println!("REPLAY property=C01 outcome={}", if vs.is_empty() { "holds" } else { "violation" });
             std::process::exit(if vs.is_empty() { 0 } else { 1 });
         }
+        "C16" => simple_replay("C16", vh::c16::replay(case)),
+        "C15" => simple_replay("C15", vh::c15::replay(case)),
         "C17" => {
             let vs = vh::c17::replay(case);
             for (k, w) in &vs {
